@@ -304,6 +304,14 @@ def _check_elem(cx, elem, mod):
             sel_name = n.targets[0].id
             ok = n.value.body.value == "4" and n.value.orelse.value == "3"
             cx.ob("R09f", n, ok, "selector: background '4', foreground '3'" if ok else "fg/bg selector digits are swapped or wrong")
+        if isinstance(n, ast.Assign) and isinstance(n.value, ast.IfExp) and is_name(n.value.test, pbg) and isinstance(n.targets[0], ast.Tuple) \
+                and isinstance(n.value.body, ast.Tuple) and isinstance(n.value.orelse, ast.Tuple) and len(n.value.body.elts) == len(n.value.orelse.elts) == len(n.targets[0].elts):
+            # sel, other = ("4", ..) if is_bg else ("3", ..)
+            for k_, (a_, b_) in enumerate(zip(n.value.body.elts, n.value.orelse.elts)):
+                if const(a_, str) and const(b_, str) and a_.value in ("3", "4") and isinstance(n.targets[0].elts[k_], ast.Name):
+                    sel_name = n.targets[0].elts[k_].id
+                    ok = a_.value == "4" and b_.value == "3"
+                    cx.ob("R09f", n, ok, "selector: background '4', foreground '3'" if ok else "fg/bg selector digits are swapped or wrong")
     cx.need(sel_name, "R09f", elem, "fg/bg selector assignment not recognised")
     # colour names table
     owner = enclosing(elem, (ast.ClassDef,))
@@ -342,29 +350,32 @@ def _check_elem(cx, elem, mod):
                 raise AnalysisError("R09f", f"{REL}::_make_seq_element", f"code operand of {norm(v)[:50]} not recognised")
             ok = sel_name in uses
             cx.ob("R09f", n, ok, "256-colour element is <selector>8:5:<code>" if ok else f"256-colour element does not use the selector: {norm(v)}")
-            fs = facts(n)
-            from sa.guards import int_bounds
-            lin_ = linear(code_e)
-            vars_ = [k for k in (lin_ or {}) if k != 1]
-            if lin_ is None or len(vars_) != 1 or lin_[vars_[0]] != 1:
-                raise AnalysisError("R09f", f"{REL}::_make_seq_element", f"code expression {norm(code_e)} is not <int variable> + constant")
-            var, off = vars_[0], lin_.get(1, 0)
-            lob, hib = int_bounds(fs, var)
-            lo = lob is not None and lob + off >= 0
-            hi = hib is not None and hib + off <= 255
-            isint = any(isinstance(e, ast.Call) and call_name(e) == "isinstance" and pol and is_name(e.args[0], var) and is_name(e.args[1], "int") for e, pol in fs) or \
-                all(isinstance(val, ast.Call) and call_name(val) == "int" or const(val, int) for _, val in assignments(elem, var) if val is not None) and var != pcolor
-            cx.ob("R09f", n, lo and hi and isint, f"code {norm(code_e)} is an int within 0..255 on every path to the 8:5: form" if lo and hi and isint else
-                  f"code {norm(code_e)} reaches the 8:5: form without the full range check (int={isint}, bounds of {var}: {lob}..{hib}, needed {-off}..{255 - off}): "
+            # the range of the code: interval of the expression from the facts on the way here and from its definitions
+            # (through private helpers), see sa/intervals.py
+            from sa import intervals
+            lob, hib, isint = intervals.of(code_e, elem, cx.repo)
+            lo = lob is not None and lob >= 0
+            hi = hib is not None and hib <= 255
+            cx.counts["R09f:code intervals computed"] = cx.counts.get("R09f:code intervals computed", 0) + 1
+            cx.ob("R09f", n, lo and hi and isint, f"code {norm(code_e)} is an int within {lob}..{hib} (0..255 needed) on every path to the 8:5: form" if lo and hi and isint else
+                  f"code {norm(code_e)} reaches the 8:5: form without the full range check (int={isint}, possible values {lob}..{hib}, allowed 0..255): "
                   "an invalid colour is emitted instead of raising ValueError", stmt=norm(n) + " [range]")
         else:
             cx.ob("R09f", n, False, f"unrecognised element form {norm(v)[:60]}")
     cx.at_least("R09f", "element return sites", n_ret, 2)
     # cube and grey assignments to the colour variable
     n_poly = 0
-    for st, v in assignments(elem, pcolor):
-        if v is None:
-            continue
+    from sa import intervals
+    comps = [(st, v, elem, pcolor) for st, v in assignments(elem, pcolor) if v is not None]
+    for c_ in [x for x in walk_local(elem) if isinstance(x, ast.Call)]:
+        h_ = intervals._helper(c_, elem, cx.repo)
+        if h_ is not None and h_ is not elem and c_.args and is_name(c_.args[0], pcolor):
+            # a private helper that turns the colour description into its code: its returns are the computations
+            hp = params(h_)
+            hp = hp[1:] if hp and hp[0] in ("self", "cls") else hp
+            if hp:
+                comps += [(r_, r_.value, h_, hp[0]) for r_ in walk_local(h_) if isinstance(r_, ast.Return) and r_.value is not None]
+    for st, v, host, src in comps:
         lin = linear(v)
         if lin is None:
             cx.ob("R09f", st, False, f"colour code computed by a non-linear / unrecognised expression {norm(v)}")
@@ -373,18 +384,18 @@ def _check_elem(cx, elem, mod):
         names = sorted(k for k in lin if k != 1)
         if len(names) == 3:
             # cube: unpack order r,g,b from the colour
-            unpack = [s for s in walk_local(elem) if isinstance(s, ast.Assign) and isinstance(s.targets[0], ast.Tuple) and is_name(s.value, pcolor)]
+            unpack = [s for s in walk_local(host) if isinstance(s, ast.Assign) and isinstance(s.targets[0], ast.Tuple) and is_name(s.value, src)]
             order = [e.id for e in unpack[0].targets[0].elts] if unpack else []
             want = {1: 16}
             if len(order) == 3:
                 want.update({order[0]: 36, order[1]: 6, order[2]: 1})
             ok = lin == want
             cx.ob("R09f", st, ok, "cube value is 16 + 36*r + 6*g + b (r,g,b in tuple order)" if ok else f"cube polynomial is {lin}, xterm says 16 + 36 r + 6 g + b with (r,g,b) = tuple order {order}")
-            fs = facts(st)
-            comp_ok = any(isinstance(e, ast.Call) and call_name(e) == "any" and not pol and _component_bound(e) for e, pol in fs) or \
-                any(isinstance(e, ast.BoolOp) and not pol for e, pol in fs) and False
-            # facts() splits `len != 3 or any(...)` under negation into two facts
-            len_ok = any(isinstance(e, ast.Compare) and isinstance(e.ops[0], ast.NotEq) and not pol and norm(e.left) == f"len({pcolor})" and const(e.comparators[0], int) and e.comparators[0].value == 3 for e, pol in fs)
+            # every component within 0..5 (all(..) / not any(..) over the tuple, however spelled) and three of them
+            from sa.guards import canon_facts
+            elo, ehi, _ei = intervals._element_bounds(st, src)
+            comp_ok = elo is not None and elo >= 0 and ehi is not None and ehi <= 5
+            len_ok = ("==", *sorted(("3", f"len({src})")), True) in canon_facts(st)
             cx.ob("R09f", st, comp_ok and len_ok, "each cube component is checked against 0..5 and the tuple has 3 elements" if comp_ok and len_ok else
                   "cube components are not all bounded to 0..5 (or the length is unchecked) before the polynomial", stmt=norm(st) + " [bounds]")
         elif len(names) == 1:
